@@ -245,8 +245,156 @@ def check_candidates(ctx, rule, f, cases, label):
               f"the candidate list is not exactly {{not plate.is_observed, plate.plate_id not in batch_plate_ids}} over screen.plates: {'; '.join(bad)}")
 
 
-def r1(ctx):
+def _telescoping_bounds(stmts, env):
+    """recognise, in one statement list, the hand-written layout of np.array_split:
+           q = N // K ; r = N % K ; B = [] ; s = 0
+           for i in range(K): e = s + q + (1 if i < r else 0) ; B.append((s, e)) ; s = e
+       -> (B, N expr, K expr, statements making up the idiom) or None.
+    The bounds telescope from 0 (each start is the previous stop), the sizes are q + [i < r] with (q, r) = divmod(N, K), hence they sum
+    to K*q + r = N: the K half-open ranges partition range(N) exactly as np.array_split(range(N), K) does."""
+    N_ = Norm(strict=False)
+    for j, lp in enumerate(stmts):
+        if not (isinstance(lp, ast.For) and isinstance(lp.target, ast.Name) and isinstance(lp.iter, ast.Call) and U(lp.iter.func) == "range" and len(lp.iter.args) == 1 and not lp.orelse):
+            continue
+        i, K = lp.target.id, lp.iter.args[0]
+        if len(lp.body) != 3:
+            continue
+        a1, ap, a2 = lp.body
+        if not (isinstance(a1, ast.Assign) and isinstance(a1.targets[0], ast.Name) and isinstance(a2, ast.Assign) and isinstance(a2.targets[0], ast.Name) and isinstance(a2.value, ast.Name)
+                and isinstance(ap, ast.Expr) and isinstance(ap.value, ast.Call) and attr_tail(ap.value) == "append" and len(ap.value.args) == 1):
+            continue
+        e, s_ = a1.targets[0].id, a2.targets[0].id
+        if a2.value.id != e:
+            continue
+        tup = ap.value.args[0]
+        if not (isinstance(tup, ast.Tuple) and [U(x) for x in tup.elts] == [s_, e]):
+            continue
+        Bn = U(ap.value.func.value)
+        # definitions before the loop in the same list
+        before = {}
+        used = []
+        for st in stmts[:j]:
+            if isinstance(st, ast.Assign) and len(st.targets) == 1 and isinstance(st.targets[0], ast.Name):
+                before[st.targets[0].id] = st
+        if not (Bn in before and U(before[Bn].value) == "[]" and s_ in before and U(before[s_].value) == "0"):
+            continue
+        size = a1.value
+        # e = s + q + (1 if i < r else 0)
+        cands = [n for n in before if n not in (Bn, s_)]
+        found = None
+        for q in cands:
+            for r in cands:
+                if q == r:
+                    continue
+                for extra in (f"(1 if {i} < {r} else 0)", f"int({i} < {r})", f"({i} < {r})"):
+                    try:
+                        if N_.key(size) == N_.key(parse_expr(f"{s_} + {q} + {extra}")):
+                            found = (q, r)
+                    except Exception:
+                        pass
+        if found is None:
+            continue
+        q, r = found
+        qd, rd = before[q].value, before[r].value
+        if not (isinstance(qd, ast.BinOp) and isinstance(qd.op, ast.FloorDiv) and isinstance(rd, ast.BinOp) and isinstance(rd.op, ast.Mod)
+                and U(qd.left) == U(rd.left) and U(qd.right) == U(rd.right) == U(K)):
+            continue
+        # nothing else may touch the idiom's variables inside the loop / between the definitions
+        idiom = [before[q], before[r], before[Bn], before[s_], lp]
+        return Bn, qd.left, K, idiom
+    return None
+
+
+def canon_chunking(fnode):
+    """rewrite  `a, b = B[IDX]; X = L[a:b]`  with B the telescoping bounds over (len(L), K) into the library form
+    `X = np.array_split(L, K)[IDX].tolist()` (a copy of the function is returned; the original is not touched); None if absent"""
+    import copy as _copy
+    node = _copy.deepcopy(fnode)
+    env = single_defs(node)
+
+    def lists(n):
+        for st in ast.walk(n):
+            for fld in ("body", "orelse", "finalbody"):
+                sub = getattr(st, fld, None)
+                if isinstance(sub, list) and sub and isinstance(sub[0], ast.stmt):
+                    yield st, fld, sub
+    hit = None
+    for owner, fld, lst in lists(node):
+        r = _telescoping_bounds(lst, env)
+        if r is not None:
+            hit = (owner, fld, lst) + r
+            break
+    if hit is None:
+        return None
+    owner, fld, lst, Bn, Nexpr, K, idiom = hit
+    # uses of B: exactly one `a, b = B[IDX]`, then exactly one slice L[a:b] with len(L) == N
+    uses = [n for n in ast.walk(node) if isinstance(n, ast.Name) and n.id == Bn and isinstance(n.ctx, ast.Load)]
+    par = enclosing_map(node)
+    reads = [u for u in uses if not any(u in ast.walk(st) for st in idiom)]
+    if len(reads) != 1:
+        return None
+    sub = par.get(reads[0])
+    asg = par.get(sub)
+    if not (isinstance(sub, ast.Subscript) and isinstance(asg, ast.Assign) and asg.value is sub and len(asg.targets) == 1 and isinstance(asg.targets[0], ast.Tuple)
+            and len(asg.targets[0].elts) == 2 and all(isinstance(t, ast.Name) for t in asg.targets[0].elts)):
+        return None
+    a, b = [t.id for t in asg.targets[0].elts]
+    IDX = sub.slice
+    slices = [n for n in ast.walk(node) if isinstance(n, ast.Subscript) and isinstance(n.slice, ast.Slice) and U(n.slice.lower) == a and U(n.slice.upper) == b and n.slice.step is None]
+    ab_reads = [n for n in ast.walk(node) if isinstance(n, ast.Name) and n.id in (a, b) and isinstance(n.ctx, ast.Load)]
+    if len(slices) != 1 or len(ab_reads) != 2 or not isinstance(slices[0].value, ast.Name):
+        return None
+    L = slices[0].value.id
+    if U(inline(Nexpr, env)).replace(" ", "") != f"len({L})":
+        return None
+    new = parse_expr(f"np.array_split({L}, {U(K)})[{U(IDX)}].tolist()")
+
+    class T(ast.NodeTransformer):
+        def visit_Subscript(self, n):
+            if n is slices[0]:
+                return new
+            self.generic_visit(n)
+            return n
+    node = T().visit(node)
+
+    def prune(stmts):
+        out = []
+        for st in stmts:
+            if st is asg or any(st is x for x in idiom):
+                continue
+            if isinstance(st, ast.Assign) and len(st.targets) == 1 and isinstance(st.targets[0], ast.Name) and U(st.value).replace(" ", "") == f"len({L})" \
+                    and not any(isinstance(x, ast.Name) and x.id == st.targets[0].id and isinstance(x.ctx, ast.Load) for x in ast.walk(node) if not any(x in ast.walk(y) for y in idiom)):
+                continue
+            for f_ in ("body", "orelse", "finalbody"):
+                sub_ = getattr(st, f_, None)
+                if isinstance(sub_, list) and sub_ and isinstance(sub_[0], ast.stmt):
+                    setattr(st, f_, prune(sub_))
+            # `if K <= 0: raise .. else: <emptied>`  keeps the refusal, loses the empty arm
+            out.append(st)
+        return out
+    node.body = prune(node.body)
+    ast.fix_missing_locations(node)
+    from engine.normalize import renumber
+    renumber(node)
+    return node
+
+
+def score_chunk_fn(ctx):
+    """score_chunk, with a hand-written array_split layout (telescoping divmod bounds) rewritten to the library call"""
+    import copy as _copy
     f = ctx.fn("scoring.main.score_chunk")
+    if [c for c in calls(f.node, name="np.array_split")]:
+        return f
+    node = canon_chunking(f.node)
+    if node is None:
+        return f
+    g = _copy.copy(f)
+    g.node = node
+    return g
+
+
+def r1(ctx):
+    f = score_chunk_fn(ctx)
     sp = [c for c in calls(f.node, name="np.array_split")]
     ctx.need(len(sp) == 1, "score_chunk: np.array_split not found")
     par = enclosing_map(f.node)
@@ -288,7 +436,7 @@ def r1(ctx):
 def r2(ctx):
     """the dict handed to the scorer, per case of the batch list: with a non-empty batch each chunk plate is keyed by its own
     id and merged with the union of the batch plates, reduced to unique conditions; otherwise the chunk plates as they are"""
-    f = ctx.fn("scoring.main.score_chunk")
+    f = score_chunk_fn(ctx)
     sc = [c for c in calls(f.node) if isinstance(c.func, ast.Attribute) and c.func.attr == "score" and U(c.func.value) == f.params[0]]
     ctx.need(len(sc) == 1, "score_chunk: scorer.score(...) call not found")
     pl = kwargs(sc[0]).get("plates", sc[0].args[0] if sc[0].args else None)
@@ -349,7 +497,7 @@ def r2b(ctx):
 
 
 def r3(ctx):
-    f = ctx.fn("scoring.main.score_chunk")
+    f = score_chunk_fn(ctx)
     env = single_defs(f.node)
     loops = [n for n in walk_own(f.node) if isinstance(n, ast.For) and isinstance(n.iter, ast.Call) and attr_tail(n.iter) == "items"]
     ok = False
